@@ -288,6 +288,108 @@ def load_corpus(ctx):
 
 
 # ---------------------------------------------------------------------------------------------
+# `change` requests through a real SecNode + Dispatcher (the glue around import_value / validate)
+# ---------------------------------------------------------------------------------------------
+class ChangeNode:
+    """a real node with one module whose only own parameter `p` has the datatype under test"""
+
+    def __init__(self, dt):
+        from frappy.modules import Module
+        from frappy.params import Parameter
+        from vlib.node import Node
+
+        class M(Module):
+            p = Parameter('parameter under test', datatype=dt, readonly=False)
+        self.dt = dt
+        self.node = Node({'m': {'cls': M, 'description': 'C01'}})
+        self.module = self.node.modules['m']
+        self.conn = self.node.connect()
+
+    def hold(self, value):
+        """a driver update: the parameter now holds dt(value) (or keeps its value when __call__ refuses)"""
+        self.module.announceUpdate('p', value)
+
+    @property
+    def held(self):
+        return self.module.parameters['p'].value
+
+    def change(self, cand):
+        """('ok', stored value) | ('bad', None) | ('other', python class) for one `change m:_p <cand>`"""
+        reply = self.node.request(self.conn, 'change', 'm:_p', cand)
+        del self.conn.msgs[:]
+        if reply[0] == 'changed':
+            return 'ok', self.held
+        if reply[2][0] in ('RangeError', 'WrongType'):
+            return 'bad', None
+        return 'other', reply[2][1]
+
+
+def eval_change(case, cn=None):
+    """one `change` request for a protocol case with mode 'node' (prev = the value held); returns (request, outcome)"""
+    dt = dtcodec.tree_to_dt(case['tree'])
+    if cn is None:
+        cn = ChangeNode(dt)
+    if case['prev'] is not None:
+        cn.hold(dtcodec.json_to_py(case['prev']))
+    held = cn.held
+    cand = json.loads(json.dumps(dtcodec.json_to_py(case['cand'])))
+    hint = _outcome(lambda: cn.dt.import_value(cand))
+    out = _enc(cn.change(cand))
+    if not dtcodec.encodable(held):
+        return None, out
+    req = {'p': 'C01', 'k': 'change', 'dt': case['tree'], 'cand': case['cand'], 'held': dtcodec.py_to_json(held),
+           'hint': dtcodec.py_to_json(hint[1]) if hint[0] == 'ok' and dtcodec.encodable(hint[1]) else None, 'out': out}
+    return req, out
+
+
+def node_stream(ctx, res, cases, ntrees):
+    """the wire cases of `ntrees` trees sent as `change` requests to a real node: the value stored / the error class
+    against the model `changeValue` and the Lean monitor `judgeChange`"""
+    by_tree = {}
+    for c, stream in cases:
+        if c['mode'] == 'wire' and not c.get('via_get_datatype'):
+            by_tree.setdefault(json.dumps(c['tree'], sort_keys=True), []).append(c)
+    keys = sorted(by_tree)
+    ctx.rng.shuffle(keys)
+    reqs, meta = [], []
+    for key in keys[:ntrees]:
+        group = by_tree[key]
+        try:
+            cn = ChangeNode(dtcodec.tree_to_dt(group[0]['tree']))
+        except Exception as e:      # a datatype no parameter can be built with is not a case
+            res.count('node.refused:' + type(e).__name__)
+            continue
+        res.count('node.tree.root=' + group[0]['tree']['t'])
+        for c in group:
+            req, out = eval_change(c, cn)
+            if req is None:
+                continue
+            nc = {'tree': c['tree'], 'mode': 'node', 'cand': c['cand'], 'prev': req['held']}
+            reqs.append(req)
+            meta.append((nc, out))
+    for (nc, out), ans in zip(meta, ctx.driver.batch(reqs)):
+        if 'driver_error' in ans:
+            raise RuntimeError(f'driver error {ans} on {json.dumps(nc)[:400]}')
+        res.evaluations += 1
+        res.traces += 1
+        res.count('stream=node(change request)')
+        res.count('node.change=' + out_class(out))
+        if out_class(out) == 'ok':
+            res.nontriv(nc)
+        if not ans['wf']:
+            continue
+        if ctx.model_ok and canon_out(ans['model']) != canon_out(out):
+            res.disagreements.append({'case': nc, 'model': ans['model'], 'impl': out})
+        for clause in ans['judge']:
+            res.violations.append({'sig': 'C01:' + clause + ':' + nc['tree']['t'] +
+                                          (':' + out['other'] if clause.startswith('total') else ''),
+                                   'what': f'{clause}: change request on a parameter of type {dtcodec.tree_to_dt(nc["tree"])!r} holding '
+                                           f'{dtcodec.json_to_py(nc["prev"])!r}, data {dtcodec.json_to_py(nc["cand"])!r}: '
+                                           f'{json.dumps(out) if not (isinstance(out, dict) and "ok" in out) else repr(dtcodec.json_to_py(out["ok"]))}',
+                                   'case': nc, 'detail': {'clause': clause}})
+
+
+# ---------------------------------------------------------------------------------------------
 # one protocol case
 # ---------------------------------------------------------------------------------------------
 def proto_case(tree, mode, cand_j, prev_j):
@@ -537,6 +639,9 @@ def run(ctx):
                                        'what': f'{clause}: ' + describe(small, simpl),
                                        'case': small, 'detail': {'clause': clause, 'original': c if small is not c else None}})
 
+    # ---------- the same wire cases as `change` requests through a real node (glue: dispatcher + write wrapper) ----------
+    node_stream(ctx, res, cases, ctx.budget(40, 400))
+
     # ---------- re-test of the float laws on the doubles drawn (a test of the trusted base, not a proof) ----------
     law_test(ctx, res, cases)
 
@@ -602,6 +707,20 @@ def replay(ctx, rp):
         print('candidate:', repr(cand))
         print('impl     :', outs)
         return 1 if any(k == 'other' for k, _ in outs) else 0
+    if case['mode'] == 'node':
+        req, out = eval_change(case)
+        ans = ctx.driver.batch([req])[0]
+        print('datatype :', repr(dtcodec.tree_to_dt(case['tree'])))
+        print('held     :', repr(dtcodec.json_to_py(req['held'])))
+        print('change   :', repr(dtcodec.json_to_py(case['cand'])))
+        print('impl     :', json.dumps(out))
+        print('model    :', json.dumps(ans.get('model')))
+        print('judge    :', ans.get('judge'), '' if ans.get('wf') else '(tree not WF)')
+        agree = canon_out(ans['model']) == canon_out(out)
+        print('model == implementation:', agree)
+        if rp.get('kind') == 'no-failing-input-found':
+            return 0 if agree else 1
+        return 1 if ans.get('judge') else 0
     req, impl = eval_case(case)
     ans = ctx.driver.batch([req])[0]
     dt = dtcodec.tree_to_dt(case['tree'])
